@@ -22,6 +22,7 @@ from ..core import ROOT, Check, Driver, HarnessError, ddmin, proof_stage
 from ..sched import enumerate_schedules
 
 PROP = "C07"
+BIG = 1500          # schedules; see the exhaustive part of run()
 DRIVER = Driver("driver_c07", "Drivers/C07.lean")
 
 TRUSTED = [
@@ -41,11 +42,11 @@ TRUSTED = [
 # ------------------------------------------------------------------------------------------------------------
 # protocol
 
-def item_of(ent, cinfo):
+def item_of(ent, cinfo, variant):
     kind, i = ent
     if kind == "c":
         _, key, n, k, val = cinfo[i]
-        return f"c{i}:{key}:{n}:{k}{val}"
+        return f"c{i}:{key}:{sfimpl.gates_of(variant, n, k)}:{k}{val}"
     return f"x{i}"
 
 
@@ -60,7 +61,7 @@ def model_lines(case, eff):
         if kind == "cancel":
             lines.append(f"do k{arg}")
         else:
-            lines.append("do " + " ".join(item_of(tuple(e), cinfo) for e in arg))
+            lines.append("do " + " ".join(item_of(tuple(e), cinfo, case["variant"]) for e in arg))
     return lines
 
 
@@ -90,6 +91,7 @@ def parse_answer(ans: str):
 def compare(case, run, answers):
     """index of the first step where the implementation's observation differs from the model (None if none)"""
     impl = impl_strings(case, run)
+    gated = sfimpl.GATED[case["variant"]]
     if answers[0] != "ok":
         return 0, "driver rejected the case line: " + answers[0]
     if len(impl) != len(run.eff):
@@ -102,7 +104,18 @@ def compare(case, run, answers):
             return i, f"the real run took a step the model considers impossible here (enabled flags {p['en']})"
         if ic != p["callers"]:
             return i, f"callers: impl {ic} model {p['callers']}"
-        if ik != p["keys"]:
+        if gated:
+            # the execution also parks outside the wrapped body (after the lookup, before the store): the model counts the
+            # body as started at the call and running until the execution ends, the real counters lag / lead by those
+            # steps; they must never exceed the model's and must agree once nothing is in flight
+            ok = True
+            for a, b in zip(ik.split(";"), p["keys"].split(";")):
+                (_, ar, as_), (_, br, bs) = a.split(":"), b.split(":")
+                if int(ar) > int(br) or int(as_) > int(bs) or (p["inflight_max"] == 0 and (ar, as_) != (br, bs)):
+                    ok = False
+            if not ok:
+                return i, f"bodies running/started per key: impl {ik} exceeds / ends unlike model {p['keys']}"
+        elif ik != p["keys"]:
             return i, f"bodies running/started per key: impl {ik} model {p['keys']}"
     if run.stuck:
         return len(impl), "the real run got stuck: live callers, nothing left to release"
@@ -122,6 +135,7 @@ def code_of(kind, val):
 def oracle(case, run):
     """returns (violations [(signature, text)], interesting-state counters)"""
     caching = sfimpl.CACHING[case["variant"]]
+    gated = sfimpl.GATED[case["variant"]]
     script = {c[0]: tuple(c) for c in case["callers"]}
     viol = []
     stats = {}
@@ -159,6 +173,10 @@ def oracle(case, run):
                 expected[c] = r
                 r["waiters"].append(c)
                 hit("late_join" if r["ended"] else "join")
+                if r.get("body_done") and not r["ended"]:
+                    hit("join_after_body_before_store")
+                elif not r["started"] and not r["hit"]:
+                    hit("join_before_body_started")
             elif caching and k in cache_val:
                 new_rec(c, k, code_of("r", cache_val[k]), True)
                 hit("cache_hit")
@@ -198,7 +216,10 @@ def oracle(case, run):
                 running[k].remove(x)
             r = recs.get(x)
             if r is not None:
-                r["ended"] = True
+                if gated and kind == "r" and how == "ok":
+                    r["body_done"] = True          # still in flight: the decorator has yet to store the result
+                else:
+                    r["ended"] = True
                 r["outcome"] = code_of(kind, val)
                 live = [w for w in r["waiters"] if w not in cancelled]
                 if not live:
@@ -218,6 +239,10 @@ def oracle(case, run):
                     hit("exec_cancelled_with_no_waiter_left")
             elif caching and kind == "r":
                 cache_val[k] = val
+        elif t == "stored":
+            r = recs.get(ev[1])
+            if r is not None:
+                r["ended"] = True
         elif t == "cancel":
             c = ev[1]
             cancelled.add(c)
@@ -419,17 +444,37 @@ def programs(thorough: bool):
         progs.append(([[1, 0, 2, "e", 0], [2, 0, 0, "r", 8], [3, 0, 1, "r", 9]], ["bare_default", "early", "cache_lock"]))
         progs.append(([[1, 0, 1, "r", 7], [2, 0, 0, "r", 8], [3, 0, 1, "e", 1], [4, 0, 0, "r", 9]], ["bare", "cache_default"]))
         return progs
+    plain = [v for v in V if not sfimpl.GATED[v]]
+    gated = [v for v in V if sfimpl.GATED[v]]
+    rot = 0
+
+    def same_key(m, n, kind, val, nmax):
+        # all on one key: whoever is released first runs its own script, so the scripts differ per caller
+        return [[i, 0, (n if i == 1 else (n + i) % (nmax + 1)), (kind if i % 2 else "r"), (val if i % 2 else 10 + i)]
+                for i in range(1, m + 1)]
+
+    def split(m, n):
+        # the last caller on another key: two executions in flight at once
+        return [[i, 0 if i < m else 1, n, "r" if i != 2 else "e", 10 + i if i != 2 else 1] for i in range(1, m + 1)]
+
     for m in (2, 3, 4):
         nmax = {2: 3, 3: 3, 4: 2}[m]
         for n, (kind, val) in itertools.product(range(nmax + 1), outs):
-            # all on one key: whoever is released first runs its own script, so the scripts differ per caller
-            cs = [[i, 0, (n if i == 1 else (n + i) % (nmax + 1)), (kind if i % 2 else "r"), (val if i % 2 else 10 + i)]
-                  for i in range(1, m + 1)]
-            progs.append((cs, V))
-        # the last caller on another key: two executions in flight at once
+            cs = same_key(m, n, kind, val, nmax)
+            if m < 4:
+                progs.append((cs, plain))
+            else:           # 4 callers: the bare decorator plus three of the other variants in rotation
+                progs.append((cs, ["bare"] + [plain[1 + (rot + j) % (len(plain) - 1)] for j in range(3)]))
+                rot += 3
         for n in range({2: 3, 3: 2, 4: 1}[m] + 1):
-            cs = [[i, 0 if i < m else 1, n, "r" if i != 2 else "e", 10 + i if i != 2 else 1] for i in range(1, m + 1)]
-            progs.append((cs, V if m < 4 else ["bare", "cache", "early"]))
+            progs.append((split(m, n), plain if m < 4 else (["bare", "early"] if n else ["cache", "soft"])))
+    # gated backends add two suspension points to every execution that runs the body, so the bodies are shorter
+    for m in (2, 3):
+        for n, (kind, val) in itertools.product(range(2), outs):
+            progs.append((same_key(m, n, kind, val, 1), gated))
+        progs.append((split(m, 0), gated))
+    for j, (kind, val) in enumerate(outs):
+        progs.append((same_key(4, 0, kind, val, 0), [gated[j % len(gated)]]))
     return progs
 
 
@@ -470,7 +515,7 @@ def run(chk: Check) -> int:
             for k in stats:
                 interesting[k] = interesting.get(k, 0) + 1
             max_conc = max([max_conc] + list(r.maxrun.values()))
-            nontrivial = any(k in stats for k in ("join", "late_join", "cancel_one_of_several_waiters", "cancel_last_waiter",
+            nontrivial = any(k in stats for k in ("join", "late_join", "join_after_body_before_store", "cancel_one_of_several_waiters", "cancel_last_waiter",
                                                   "cancel_creator", "orphan_execution_finished", "exception_fanout"))
             if nontrivial:
                 distinct.add(json.dumps([case["variant"], case["callers"], r.eff], sort_keys=True, default=list))
@@ -513,8 +558,13 @@ def run(chk: Check) -> int:
     per_prog_limit = chk.budget(3000, 40000)
     variants = sfimpl.VARIANTS
     progs = programs(chk.thorough)
+    big_rot = 0
     for pi, (callers, vs) in enumerate(progs):
-        for v in vs:
+        vs = list(vs)
+        vi = 0
+        while vi < len(vs):
+            v = vs[vi]
+            vi += 1
             if found >= 3:
                 break
             last = {}
@@ -525,16 +575,17 @@ def run(chk: Check) -> int:
                 return last["r"].branching
 
             count = 0
-            complete = True
             for _ in enumerate_schedules(run_once, limit=per_prog_limit):
                 count += 1
-            if count >= per_prog_limit:
-                complete = False
-            exhaustive_info.append({"variant": v, "callers": callers, "schedules": count, "complete": complete})
+            exhaustive_info.append({"variant": v, "callers": callers, "schedules": count, "complete": count < per_prog_limit})
+            if vi == 1 and count > BIG and len(vs) > 2:
+                # a large schedule space: the first variant plus one of the others (in rotation) instead of all of them
+                vs = [vs[0], vs[1 + big_rot % (len(vs) - 1)]]
+                big_rot += 1
     flush()
 
     # 3. random schedules with bursts and up to two cancellations
-    n = chk.budget(4000, 30000)
+    n = chk.budget(6000, 15000)
     for i in range(n):
         if found >= 3:
             break
